@@ -10702,6 +10702,7 @@ int cgi_array_general_write(
             if (strcmp(arrayname, (*p_arraylist)[idx].name) == 0) {
                 have_dup = 1;
                 array = &((*p_arraylist)[idx]);
+                (*A) = idx + 1;
                 break;
             }
         }
